@@ -53,6 +53,61 @@ def spec_int(op: str, a: int, b: int, lo: int, hi: int, signed: bool) -> str:
     return "err"
 
 
+def gen_aexpr(rng, depth, B):
+    if depth == 0 or rng.random() < 0.2:
+        return ["lit", rng.choice(B) if rng.random() < 0.7 else rng.randint(-20, 20)]
+    if rng.random() < 0.3:
+        return ["neg", gen_aexpr(rng, depth - 1, B)]
+    return [rng.choice(["add", "sub", "mul", "div", "mod"]), gen_aexpr(rng, depth - 1, B), gen_aexpr(rng, depth - 1, B)]
+
+
+def aexpr_tokens(t):
+    if t[0] == "lit":
+        return f"lit {t[1]}"
+    if t[0] == "neg":
+        return "neg " + aexpr_tokens(t[1])
+    return f"{t[0]} {aexpr_tokens(t[1])} {aexpr_tokens(t[2])}"
+
+
+def render_aexpr(t, env, style):
+    """leaves become bound variables v0, v1, …; style 0: fully parenthesised, 1: unary minus juxtaposed
+    (`--x`, `- -x`), 2: minimal parentheses by precedence"""
+    def leaf(v):
+        name = f"v{len(env)}"
+        env[name] = v
+        return name
+    def go(t, prec):
+        if t[0] == "lit":
+            return leaf(t[1])
+        if t[0] == "neg":
+            inner = go(t[1], 3)
+            if style == 0:
+                return f"-({inner})"
+            return ("-" if style == 1 else "- ") + inner
+        p = 1 if t[0] in ("add", "sub") else 2
+        l, r = go(t[1], p), go(t[2], p + 1)
+        s = f"{l} {OPSYM[t[0]]} {r}"
+        return f"({s})" if (style == 0 or p < prec) else s
+    return go(t, 0)
+
+
+def spec_aexpr(t):
+    """exact integers, range-checked at every node; None = error"""
+    if t[0] == "lit":
+        return t[1]
+    if t[0] == "neg":
+        x = spec_aexpr(t[1])
+        if x is None:
+            return None
+        r = spec_int("neg", x, 0, I_MIN, I_MAX, True)
+    else:
+        x, y = spec_aexpr(t[1]), spec_aexpr(t[2])
+        if x is None or y is None:
+            return None
+        r = spec_int(t[0], x, y, I_MIN, I_MAX, True)
+    return None if r == "err" else int(r)
+
+
 DBL_SPECIAL = [0.0, -0.0, math.inf, -math.inf, math.nan, 5e-324, -5e-324, 1.7976931348623157e308,
                -1.7976931348623157e308, 1.0, -1.0, 2.0, 0.5, 3.0, 1e308, -1e308, 2.2250738585072014e-308, 0.1, 1e-320]
 
@@ -98,6 +153,18 @@ class C01(Prop):
                         cases.append({"kind": ty, "op": op, "a": a, "b": b, "via": v})
             for a in B:
                 cases.append({"kind": ty, "op": "neg", "a": a, "b": 0, "via": rng.choice(["dunder", "I", "C"])})
+        # arithmetic expression trees (nested unary minus, mixed operators) through both runners
+        B = boundary(True, small=True)
+        for _ in range(400 if quick else 8000):
+            t = gen_aexpr(rng, rng.randint(1, 3), B)
+            cases.append({"kind": "x", "tree": t, "via": rng.choice(["I", "C"]), "style": rng.randrange(3)})
+        for a in (I_MIN, I_MIN + 1, I_MAX, -1, 0, 1):
+            for t in (["neg", ["neg", ["lit", a]]], ["neg", ["neg", ["neg", ["lit", a]]]],
+                      ["sub", ["lit", 0], ["neg", ["lit", a]]], ["neg", ["mul", ["lit", a], ["lit", -1]]],
+                      ["add", ["neg", ["lit", a]], ["lit", -1]], ["div", ["neg", ["neg", ["lit", a]]], ["lit", -1]]):
+                for via in ("I", "C"):
+                    for style in range(3):
+                        cases.append({"kind": "x", "tree": t, "via": via, "style": style})
         # doubles
         ds = list(DBL_SPECIAL)
         for _ in range(60 if quick else 600):
@@ -118,6 +185,10 @@ class C01(Prop):
     def impl(self, c):
         from celpy import celtypes
         import operator
+        if c["kind"] == "x":
+            env = {}
+            src = render_aexpr(c["tree"], env, c["style"])
+            return celrun.run(src, c["via"], {k: celtypes.IntType(v) for k, v in env.items()})
         kind, op, via = c["kind"], c["op"], c["via"]
         if kind in ("i", "u"):
             T = celtypes.IntType if kind == "i" else celtypes.UintType
@@ -181,6 +252,8 @@ class C01(Prop):
 
     # -- model ----------------------------------------------------------------------------------
     def model_line(self, c):
+        if c["kind"] == "x":
+            return "x " + aexpr_tokens(c["tree"])
         if c["kind"] in ("i", "u"):
             op = c["op"]
             if c["via"] == "rdunder":
@@ -193,6 +266,8 @@ class C01(Prop):
 
     def model_expect(self, c, m):
         via, kind = c["via"], c["kind"]
+        if kind == "x":
+            return "int:" + m[3:] if m.startswith("ok ") else "err"
         if kind in ("i", "u"):
             if via in ("dunder", "rdunder"):
                 return m
@@ -211,6 +286,12 @@ class C01(Prop):
 
     # -- oracle ----------------------------------------------------------------------------------
     def oracle(self, c, out):
+        if c["kind"] == "x":
+            exp = spec_aexpr(c["tree"])
+            exp = "err" if exp is None else f"int:{exp}"
+            if out != exp:
+                return f"{render_aexpr(c['tree'], {}, c['style'])} with {c['tree']} via {c['via']}: exact arithmetic gives {exp}, implementation gave {out}"
+            return None
         kind, op, via = c["kind"], c["op"], c["via"]
         if kind in ("i", "u"):
             lo, hi = (I_MIN, I_MAX) if kind == "i" else (0, U_MAX)
@@ -246,6 +327,8 @@ class C01(Prop):
         return None
 
     def nontrivial(self, c, out):
+        if c["kind"] == "x":
+            return True
         if c["kind"] in ("i", "u"):
             if not celrun.is_value(out) or out.startswith("raise"):
                 return True
